@@ -445,6 +445,18 @@ def eval_model(ctx, c):
         ctx.violation('raises:build', 'building the forward model raised %r' % (e,), small)
         return
     judge_model(ctx, m, c, small, 'model')
+    # quota: the structure is read again AFTER a forward-model evaluation on the same object (the usual output order:
+    # model(), then the profiles): evaluating the spectrum must not alter altitudes, thicknesses, gravity, density
+    if len(repr(sorted(c.items(), key=lambda kv: kv[0]))) % 3 == 0:
+        try:
+            with np.errstate(all='ignore'):
+                m.model()
+        except Exception as e:
+            if not _invalid_params(ctx, e):
+                ctx.violation('raises:model', 'evaluating the built forward model raised %r' % (e,), small)
+            return
+        ctx.bucket('model:structure-reread-after-model()')
+        judge_model(AfterModelCtx(ctx, 'after-model:'), m, c, small, 'after-model')
 
 
 def judge_model(ctx, m, c, small, stream):
@@ -590,6 +602,23 @@ def gen_array(rng, n, pmin, pmax):
 
 
 # ----------------------------------------------------------------------------- stream 4: re-used objects
+class AfterModelCtx:
+    """the run context with every violation key prefixed: structure read after model() on the same object"""
+
+    def __init__(self, ctx, prefix):
+        object.__setattr__(self, '_ctx', ctx)
+        object.__setattr__(self, '_prefix', prefix)
+
+    def __getattr__(self, name):
+        return getattr(self._ctx, name)
+
+    def __setattr__(self, name, value):
+        setattr(self._ctx, name, value)
+
+    def violation(self, key, what, case, detail=None):
+        self._ctx.violation(self._prefix + key, what + ' [read after model() was evaluated on the object]', case, detail)
+
+
 class PrefixCtx:
     """the run context with every violation key prefixed (same counters, same driver)"""
 
